@@ -14,9 +14,11 @@ PROVED (character level, for all inputs of the stated shape, no size bounds):
   `parse_render_struct_header`, `parse_render_member` (all member forms), `parse_render_struct_attribute`,
   `parse_render_field_attribute`.
 * `legacy_of_parse` (descriptors of the parsed text = descriptors of what was printed), as a corollary.
-* `print_parse_fixpoint_partial`: `parse doc = ok ds → WFDeclsA ds → parse (print ds) = ok ds`. PARTIAL: the hypothesis
-  `WFDeclsA ds` is not derived from `parse doc = ok ds` (that the parser only produces well-formed declarations is
-  not proved; documents with comments produce declarations outside `WFDeclsA`).
+* `parse_output_wf`: for every document, the declarations of a successful parse are well-formed (names, widths,
+  operators, attributes; comments unconstrained).
+* `print_parse_fixpoint`: for every document that parses to comment-free declarations (no member-less struct, at
+  least one declaration), `parse (print (parse doc)) = parse doc`; well-formedness is derived, not assumed.
+  (`print_parse_fixpoint_partial` is the older form with `WFDeclsA ds` as a hypothesis.)
 * trivia: `parse_crlf` (for EVERY document without carriage returns, comments included: `\r\n` line ends give the
   same result, errors included), `parse_blank_lines` (with or without the empty line between printed declarations),
   `tab_is_four_spaces` / `tab_or_four_spaces_same_line` (a tab in the indentation of a code line = four blanks, at
@@ -31,8 +33,7 @@ NOT PROVED:
   are merged into one token, attached to the following declaration / member, and that free comments are dropped, is
   modelled and tested by the correspondence run, but the document-level theorem does not cover it (`comment_roundtrip`
   is the piece about the comment text itself).
-* that the parser's output is always printable (`parse doc = ok ds → WFDeclsA ds` for comment-free documents), hence
-  the unconditional `print_parse_fixpoint`.
+* `print_parse_fixpoint` for documents with comments (same gap as above).
 * hexadecimal numerals in general (no upper-case hex printer exists to state it against), blank lines inside
   declarations and tabs-vs-blanks at document level (only the line-level statement), trailing blanks, loose token
   spacing. These are covered by the correspondence run only.
@@ -42,6 +43,7 @@ import SymbolVerif.Model.Cats.Printer
 import SymbolVerif.Proofs.CatsAttrDocument
 import SymbolVerif.Proofs.CatsCrlf
 import SymbolVerif.Proofs.CatsComment
+import SymbolVerif.Proofs.CatsOutput
 namespace SymbolVerif.C04
 open SymbolVerif.Cats SymbolVerif.Cats.Lexer SymbolVerif.Cats.Parser
 
@@ -165,9 +167,23 @@ theorem legacy_of_parse (ds : Schema) (h : WFDeclsA ds) (hne : ds ≠ []) :
   rw [parse_render ds h hne]
   rfl
 
-/-- printing what was parsed and parsing again gives the same declarations, for every document whose declarations
-    are well-formed in the sense above (that the parser only produces such declarations is not proved here; on the
-    model and on the implementation it is checked by the correspondence run) -/
+/-- **the parser only produces well-formed declarations**: for EVERY document, each declaration of a successful parse
+    has names in their lexical classes, one of the eight integer types wherever an integer type stands, a known
+    condition operator, known attributes with the value lists of the grammar; comments are unconstrained (`OutDecl`,
+    `Proofs/CatsOutput.lean`). -/
+theorem parse_output_wf (doc : Chars) (ds : Schema) (h : parse doc = .ok ds) : ∀ d ∈ ds, OutDecl d :=
+  parse_out doc ds h
+
+/-- **print_parse_fixpoint**: for EVERY document — any spacing, blank lines, CRLF, tabs or blanks, hex or decimal
+    numerals, any order of statements, imports — if it parses to declarations that carry no comments (and no struct
+    is member-less, which the grammar admits only for a body made of comments or of a lone indentation before the end
+    of the input), then printing these declarations and parsing the printed text yields the same declarations. The
+    well-formedness needed by `parse_render` is not assumed: it is derived from the successful parse. -/
+theorem print_parse_fixpoint (doc : Chars) (ds : Schema) (hparse : parse doc = .ok ds) (hne : ds ≠ [])
+    (hc : ∀ d ∈ ds, NoComments d) (hm : ∀ d ∈ ds, HasMembers d) : parse (Printer.print ds).toList = .ok ds :=
+  parse_render ds (fun d hd => wfDeclA_of_out d (parse_out doc ds hparse d hd) (hc d hd) (hm d hd)) hne
+
+/-- the same with the well-formedness as a hypothesis (kept for callers that have it) -/
 theorem print_parse_fixpoint_partial (doc : Chars) (ds : Schema) (_hparse : parse doc = .ok ds) (h : WFDeclsA ds)
     (hne : ds ≠ []) : parse (Printer.print ds).toList = .ok ds :=
   parse_render ds h hne
